@@ -114,3 +114,17 @@ Proof. unfold cmp_equal. destruct (N.eqb_spec c 5) as [->|H5]; [repeat split; tr
 Theorem c03_cmp_non_error_iff c : cmp_non_error c = true <-> c = 5 \/ c = 6 \/ c = 10.
 Proof. unfold cmp_non_error. rewrite !orb_true_iff, !N.eqb_eq. tauto. Qed.
 Print Assumptions c03_from_the_wire.
+
+(* ... and with response controls attached: the caller gets the result and, for each control the server attached, its OID, criticality
+   and value bytes, in order — whatever definite encoding the server chose *)
+Theorem c03_from_the_wire_with_controls app_id code r ib cts cs env bs rest :
+  wf_res code r -> Forall2 WfCtrl cts cs ->
+  env = C Universal 16 [P Universal 2 ib; spec_response app_id code r; C Context 0 cts] -> BerEnc env bs ->
+  exists mid, decode_inner (bs ++ rest) = DFrame mid (spec_response app_id code r) cs rest /\
+              result_of_tree (spec_response app_id code r) = Ok r.
+Proof.
+  intros Hw Hc -> He. eexists. split; [|now apply c03_result_of_spec].
+  assert (Hop : op_ok (spec_response app_id code r)) by reflexivity.
+  exact (c06_exact_consumption _ _ bs rest (WM_ctrls ib _ cts cs Hop Hc) He).
+Qed.
+Print Assumptions c03_from_the_wire_with_controls.
